@@ -3,6 +3,7 @@
 package metadatapart
 
 import (
+	"github.com/jdillenkofer/pithos/internal/checksumutils"
 	"time"
 
 	"github.com/jdillenkofer/pithos/internal/storage"
@@ -115,8 +116,10 @@ func specNoSystemMetadata(a metadatastore.ObjectMetadata) bool {
 }
 
 // specReplaceMetadata / specReplaceTags: the request carries the REPLACE directive.
-func specReplaceMetadata(opts *storage.CopyObjectOptions) bool { return opts != nil && opts.ReplaceMetadata }
-func specReplaceTags(opts *storage.CopyObjectOptions) bool     { return opts != nil && opts.ReplaceTags }
+func specReplaceMetadata(opts *storage.CopyObjectOptions) bool {
+	return opts != nil && opts.ReplaceMetadata
+}
+func specReplaceTags(opts *storage.CopyObjectOptions) bool { return opts != nil && opts.ReplaceTags }
 
 // specRequestRedirect: the website redirect location supplied on the copy request itself (never the source's).
 func specRequestRedirect(opts *storage.CopyObjectOptions) *string {
@@ -124,4 +127,12 @@ func specRequestRedirect(opts *storage.CopyObjectOptions) *string {
 		return nil
 	}
 	return opts.Metadata.WebsiteRedirectLocation
+}
+
+// ---- C04 ----
+
+// specSameChecksums: two checksum records carry the same six values.
+func specSameChecksums(a checksumutils.ChecksumValues, b checksumutils.ChecksumValues) bool {
+	return specSameOpt(a.ETag, b.ETag) && specSameOpt(a.ChecksumCRC32, b.ChecksumCRC32) && specSameOpt(a.ChecksumCRC32C, b.ChecksumCRC32C) &&
+		specSameOpt(a.ChecksumCRC64NVME, b.ChecksumCRC64NVME) && specSameOpt(a.ChecksumSHA1, b.ChecksumSHA1) && specSameOpt(a.ChecksumSHA256, b.ChecksumSHA256)
 }
